@@ -427,5 +427,8 @@ func runC11(args []string) error {
 		return err
 	}
 	runC11ManyTables(sum)
+	if err := runC11Reset(sum); err != nil {
+		return err
+	}
 	return sum.write(rf.Out, "c11")
 }
